@@ -5,6 +5,8 @@ package pfcpiface
 import (
 	"encoding/binary"
 	"fmt"
+	"sync"
+	"sync/atomic"
 	"testing"
 	"time"
 
@@ -145,9 +147,25 @@ func TestVerif_C13(t *testing.T) {
 					// the uplink PDR first or last: the report must name a downlink PDR either way
 					est.PDRs[0], est.PDRs[1] = est.PDRs[1], est.PDRs[0]
 				}
+				withLAN := false
+				if rng.Intn(3) == 0 && !up4 {
+					// one more PDR whose source interface is neither Access nor Core (SGi-LAN/N6-LAN, 5G VN internal), listed
+					// first and forwarding: it is not "that session's downlink PDR"
+					lan := c10Session(0, 0, n).PDRs[1]
+					lan.ID, lan.Src, lan.Prec, lan.FAR = 3, []uint8{2, 4}[rng.Intn(2)], 77, 1
+					lan.SDF = "permit out udp from 10.44.0.0/16 4000 to assigned"
+					est.PDRs = append([]vPDRSpec{lan}, est.PDRs...)
+					withLAN = true
+				}
 				m := c01Request(p, p.establish(est), seq)
 				if m == nil || vDecodeReply(m).Cause != ie.CauseRequestAccepted {
+					if withLAN {
+						res.event("sessions_with_lan_pdr_refused", 1)
+					}
 					continue
+				}
+				if withLAN {
+					res.event("sessions_with_lan_pdr", 1)
 				}
 				s.up = c01UPSEID(m)
 				if rng.Intn(3) == 0 {
@@ -201,6 +219,7 @@ func TestVerif_C13(t *testing.T) {
 			report(sentinel, false)
 			// collect Session Report Requests until the sentinel's arrives
 			var got []*message.SessionReportRequest
+			answered := map[uint64]uint8{} // CP SEID -> cause the peer answered its report with
 			deadline := time.Now().Add(10 * time.Second)
 			sentinelSeen := false
 			for time.Now().Before(deadline) && !sentinelSeen {
@@ -222,7 +241,20 @@ func TestVerif_C13(t *testing.T) {
 						sentinelSeen = true
 					}
 					got = append(got, q)
-					p.send(p.reportResponse(q.SequenceNumber, q.SEID(), ie.CauseRequestAccepted))
+					cause := uint8(ie.CauseRequestAccepted)
+					if q.SEID() != sentinel.cp && q.SEID() != sentinel.up {
+						// the control plane does not always say "accepted": anything but "session context not found" leaves the session alone
+						cause = []uint8{ie.CauseRequestAccepted, ie.CauseRequestAccepted, ie.CauseRequestRejected, 74, 77}[rng.Intn(5)]
+						answered[q.SEID()] = cause
+					}
+					// the response is addressed to the agent's SEID of that session
+					rs := q.SEID()
+					for _, x := range append(append([]*sess{}, ss...), sentinel) {
+						if x.cp == q.SEID() {
+							rs = x.up
+						}
+					}
+					p.send(p.reportResponse(q.SequenceNumber, rs, cause))
 				}
 			}
 			res.eval(1)
@@ -270,10 +302,175 @@ func TestVerif_C13(t *testing.T) {
 					res.violate("C13.R6", "more-than-one-per-interval", fmt.Sprintf("session %#x: %d Session Report Requests within a few seconds (interval is 20 s)", s.up, c), w)
 				}
 			}
+			// ---- second round, behind the rate limiter: the notification channel is fed directly for every session that was
+			// reported above. Whatever the peer answered (accepted, rejected, congestion, ...), the session is still there
+			// and its downlink rule still asks for notification: each gets a Session Report Request again.
+			var again []*sess
+			for _, s := range ss {
+				if s.notify && byCP[s.cp] > 0 {
+					again = append(again, s)
+				}
+			}
+			if len(again) > 0 {
+				p.barrier(&vExchange{}) // the peer's answers have been processed
+				for _, s := range again {
+					a.iface.upf.reportNotifyChan <- s.up
+				}
+				a.iface.upf.reportNotifyChan <- sentinel.up
+				seen2 := map[uint64]int{}
+				done2 := false
+				deadline2 := time.Now().Add(10 * time.Second)
+				for time.Now().Before(deadline2) && !done2 {
+					raw, ok := p.recvRaw(200 * time.Millisecond)
+					if !ok {
+						continue
+					}
+					m, err := message.Parse(raw)
+					if err != nil {
+						continue
+					}
+					switch q := m.(type) {
+					case *message.HeartbeatRequest:
+						p.send(vMarshal(message.NewHeartbeatResponse(q.SequenceNumber, ie.NewRecoveryTimeStamp(p.startTS))))
+					case *message.SessionReportRequest:
+						if q.SEID() == sentinel.cp {
+							done2 = true
+						} else {
+							seen2[q.SEID()]++
+						}
+						p.send(p.reportResponse(q.SequenceNumber, q.SEID(), ie.CauseRequestAccepted))
+					}
+				}
+				res.event("notifications_fed_behind_the_rate_limiter", len(again))
+				if !done2 {
+					res.violate("C13.R1", "second-sentinel-missing", "a notification fed into the agent's notification channel for a live session with NOTIFY produced no Session Report Request", w)
+				} else {
+					for _, s := range again {
+						if seen2[s.cp] != 1 {
+							res.violate("C13.R1", fmt.Sprintf("no-report-after-answer cause=%d", answered[s.cp]), fmt.Sprintf("session %#x: its first Session Report Request was answered with cause %d; the session is still established and its downlink rule still asks for notification, but the next datapath report produced %d Session Report Requests (1 expected)", s.up, answered[s.cp], seen2[s.cp]), w)
+						}
+					}
+				}
+			}
 			res.distinct(fmt.Sprintf("full/up4=%v/s=%d/rep=%d/fw=%d", up4, len(ss), nrep/5, len(got)))
 			if len(res.Samples) < 3 {
 				res.sample(map[string]interface{}{"up4": up4, "sessions": len(ss), "reports_injected": nrep, "report_requests": len(got)})
 			}
+		}()
+	}
+	c13Mass(res)
+}
+
+// c13Mass: first reports of more sessions than any queue between the datapath and the PFCP side holds (the notification
+// channel has 1024 slots) arrive in one burst: none of them is suppressed.
+func c13Mass(res *vResult) {
+	for k := 0; k < vEnv.pick(1, 12); k++ {
+		idx := 2000000 + k
+		if !vEnv.mine(idx) {
+			continue
+		}
+		rng := vEnv.rng("c13m", k)
+		nsess := 1150 + rng.Intn(500)
+		res.begin(idx, fmt.Sprintf("c13 mass first reports: %d sessions", nsess), nil)
+		o := vDefaultOpts(false, vEnv.addr(1))
+		o.NotifyBess = true
+		o.ReadTimeout = 600 * time.Second
+		a, err := vStartAgent(o)
+		if err != nil {
+			res.inconclusive("agent start: " + err.Error())
+			return
+		}
+		func() {
+			defer a.stop(vStopWatchdog)
+			p, err := vNewPeer(vEnv.addr(2), o.N4)
+			if err != nil {
+				return
+			}
+			defer p.close()
+			if c01Request(p, p.assocSetup(1), 1) == nil || !a.notifySock.waitConn(3*time.Second) {
+				res.inconclusive("mass reports: association / notify socket not ready")
+				return
+			}
+			ups := map[uint64]uint64{} // CP SEID -> UP SEID
+			for i := 0; i < nsess; i++ {
+				seq := uint32(10 + i)
+				est := c10Session(seq, uint64(0x100000+i), 20000+i)
+				est.FARs[1] = vFARSpec{ID: 2, Action: ActionBuffer | ActionNotify}
+				m := c01Request(p, p.establish(est), seq)
+				if m != nil && vDecodeReply(m).Cause == ie.CauseRequestAccepted {
+					ups[est.CPSEID] = c01UPSEID(m)
+				}
+			}
+			if len(ups) < 1100 {
+				res.inconclusive(fmt.Sprintf("mass reports: only %d sessions could be established", len(ups)))
+				return
+			}
+			// the peer answers on a goroutine of its own while the burst is written
+			got := map[uint64]int{}
+			var mu sync.Mutex
+			stop := int32(0)
+			done := make(chan struct{})
+			go func() {
+				defer close(done)
+				for atomic.LoadInt32(&stop) == 0 {
+					raw, ok := p.recvRaw(50 * time.Millisecond)
+					if !ok {
+						continue
+					}
+					m, err := message.Parse(raw)
+					if err != nil {
+						continue
+					}
+					switch q := m.(type) {
+					case *message.HeartbeatRequest:
+						p.send(vMarshal(message.NewHeartbeatResponse(q.SequenceNumber, ie.NewRecoveryTimeStamp(p.startTS))))
+					case *message.SessionReportRequest:
+						mu.Lock()
+						got[q.SEID()]++
+						up := ups[q.SEID()]
+						mu.Unlock()
+						p.send(p.reportResponse(q.SequenceNumber, up, ie.CauseRequestAccepted))
+					}
+				}
+			}()
+			for _, up := range ups {
+				var b [8]byte
+				binary.LittleEndian.PutUint64(b[:], up)
+				a.notifySock.write(b[:])
+			}
+			res.event("datapath_reports_injected", len(ups))
+			// bounded wait on progress: as long as requests keep arriving the burst is being worked off
+			last, lastChange := 0, time.Now()
+			for time.Since(lastChange) < 5*time.Second {
+				time.Sleep(100 * time.Millisecond)
+				mu.Lock()
+				n := len(got)
+				mu.Unlock()
+				if n != last {
+					last, lastChange = n, time.Now()
+				}
+				if n >= len(ups) {
+					break
+				}
+			}
+			atomic.StoreInt32(&stop, 1)
+			<-done
+			res.eval(1)
+			res.event("session_report_requests_seen", len(got))
+			missing := 0
+			for cp := range ups {
+				if got[cp] == 0 {
+					missing++
+				}
+				if got[cp] > 1 {
+					res.violate("C13.R6", "more-than-one-per-interval", fmt.Sprintf("session with CP SEID %#x: %d Session Report Requests for one report", cp, got[cp]), nil)
+					break
+				}
+			}
+			if missing > 0 {
+				res.violate("C13.R1", "first-report-suppressed-in-burst", fmt.Sprintf("%d of %d sessions (each reported once, all at the same time) got no Session Report Request: first reports were suppressed", missing, len(ups)), map[string]interface{}{"sessions": len(ups)})
+			}
+			res.distinct(fmt.Sprintf("mass/%d", len(ups)/100))
 		}()
 	}
 }
